@@ -70,6 +70,8 @@ def classify(e: BaseException, stage: str, env=None, src=None):
         return f"{cls}:{site}:{kind}", f"Python {cls}: {e.msg} in generated/evaluated code `{line}`"
     if "Exceeds the limit" in msg and "integer string conversion" in msg:
         return f"{cls}:{site}:int-max-str-digits", f"{cls}: {msg[:80]}"
+    if isinstance(e, KeyError) and e.args:
+        return f"{cls}:{site}:key-{slug(str(e.args[0]).replace(chr(39), ' '))}", f"{cls}: {msg[:160]}"
     return f"{cls}:{site}:{slug(msg)}", f"{cls}: {msg[:160]}"
 
 
